@@ -360,6 +360,9 @@ def _plan(prop, T):
         return dict(
             level="fault_enumeration",
             jobs=[
+                dict(flavour="dbg", suite="ord-closure", args=dict(mon="lookup,handle,steps", fault=1, sets=("maptree:7:8,settree:7:0,maplist:7:0,setlist:7:1,maptree:6:1,settree:6:9,maplist:8:8,setlist:8:0" if T else "maptree:6:8,settree:6:0,maplist:6:0,setlist:6:1,maptree:5:1,settree:5:9,maplist:7:8,setlist:7:0")), shards=8, timeout=3000 if T else 120),
+                dict(flavour="dbg", suite="key-closure", args=dict(mon="pred,get,export", fault=1, coll="tree", sets=("4:3:1,5:2:8,4:2:0,3:4:9" if T else "4:3:1,4:2:8,3:3:0,3:2:9")), shards=4, timeout=3000 if T else 120),
+                dict(flavour="dbg", suite="key-closure", args=dict(mon="pred,get,export", fault=1, coll="list", sets=("4:3:1,5:2:8,4:2:0,3:4:9" if T else "4:3:1,4:2:8,3:3:0,3:2:9")), shards=4, timeout=3000 if T else 120),
                 dict(flavour="dbg", suite="fault", args=dict(), shards=16, budget=2800 * 16 * (8 if T else 1)),
                 dict(flavour="rel", suite="fault", args=dict(), shards=16, budget=2800 * 16 * (8 if T else 1), seed_offset=13),
                 dict(flavour="asan", suite="fault", args=dict(), shards=8, budget=700 * 8 * (8 if T else 1), seed_offset=14),
@@ -367,7 +370,7 @@ def _plan(prop, T):
             ],
             rule="evaluation = one injection point (history, operation index, callback index) enumerated exhaustively per history: the callback panics, the panic is caught, then structure + slot accounting are validated, observable contents must equal the reference before or after the operation, the rest of the history runs under all monitors, and payload drops must balance; distinct non-trivial = distinct (collection, operation, callback index, reference contents before)",
             require={"operations_enumerated": 50000, "injected_key_cmp": 1000, "injected_key_partial_cmp": 300, "injected_key_comparator": 300, "injected_key_expiration": 1000, "injected_map_key_cmp": 1000, "injected_map_comparator": 100, "injected_set_key_cmp": 1000, "injected_set_key_accessor": 1000, "injected_set_comparator": 100, "injected_seg_val_expiration": 1000, "outcome_contents_as_before": 10000},
-            exhaustive_scope="every callback invocation of every operation of each generated history, on all seven collections",
+            exhaustive_scope="every callback invocation of every operation of each generated history, on all seven collections; and, closed over small key universes, every reachable state of the six tree / list collections x every operation sequence of the closure x every callback invocation of it",
             assumptions=["histories are short (18 operations) so that all injection points are affordable", "for a panic inside a segment-tree iterator the iterator is dropped and a fresh query is compared"],
         )
     if prop == "C19":
